@@ -122,6 +122,7 @@ func runGc(h *History, res *vf.Result) (string, []hit) {
 	refs := map[common.Hash]int{}     // meta references by the harness' own count
 	onDisk := map[common.Hash]bool{}  // roots committed to disk
 	var gops []string
+	oracleOnly := false
 	memo := newMemo()
 	extEdges := map[common.Hash][]common.Hash{} // explicit references parent node -> child root
 	// reachable collects the node hashes reachable from a root (implicit and explicit edges)
@@ -275,7 +276,7 @@ func runGc(h *History, res *vf.Result) (string, []hit) {
 						triedb.Reference(r, common.Hash{})
 						refs[r]++
 					}
-					gops = nil // not a correspondence case
+					oracleOnly = true // 65536 model steps would only slow the Coq run down; the oracle is what this input is for
 				}
 			case "deref":
 				if s.Root < len(roots) && refs[roots[s.Root].hash] > 0 {
@@ -329,6 +330,9 @@ func runGc(h *History, res *vf.Result) (string, []hit) {
 		}
 		checkDisk(len(h.Gc))
 	}()
+	if oracleOnly {
+		return "mkCase false [] [] []", hits
+	}
 	var tab []string
 	for _, d := range memo.order {
 		tab = append(tab, "("+bl([]byte(d))+","+bl(memo.pairs[d])+")")
